@@ -27,17 +27,17 @@ pub struct Case {
     pub later: Vec<ProcPlan>,
 }
 
-#[derive(Debug, Clone)]
+#[derive(Debug, Clone, Serialize, Deserialize)]
 pub struct Failure {
     pub class: String,
     pub detail: String,
     pub location: Option<String>,
 }
 
-#[derive(Debug, Clone)]
+#[derive(Debug, Clone, Serialize, Deserialize)]
 pub struct Verdict {
     pub eligible: bool,
-    pub kinds: Vec<&'static str>,
+    pub kinds: Vec<String>,
     pub failure: Option<Failure>,
     /// What the call came back with, eligible or not.
     pub outcome_class: String,
@@ -423,6 +423,7 @@ pub fn classify_case(case: &Case) -> (bool, Vec<&'static str>) {
 
 pub fn run_case(case: &Case, reference: Option<&RefProgram>, want_log: bool) -> Verdict {
     let (eligible, kinds) = classify_case(case);
+    let kinds: Vec<String> = kinds.into_iter().map(|k| k.to_string()).collect();
     let Some(reference) = reference else {
         return Verdict {
             eligible,
@@ -545,6 +546,175 @@ fn case_spawn(reports: &[ProcReport], programs: &[String]) -> SpawnSeen {
     } else {
         SpawnSeen::Ok
     }
+}
+
+// ---------------------------------------------------------------------------------------------
+// Isolation: one run, one process. Code under test may keep process-wide state (a "formatter is
+// missing" memo, a cache): runs must not see each other's, or verdicts would depend on run order.
+
+fn crashed_verdict(case: &Case, what: String) -> Verdict {
+    let (eligible, kinds) = classify_case(case);
+    let class = what.split(' ').next().unwrap_or("crash").to_string();
+    Verdict {
+        eligible,
+        kinds: kinds.into_iter().map(|k| k.to_string()).collect(),
+        failure: eligible.then(|| Failure {
+            class: class.clone(),
+            detail: what.clone(),
+            location: None,
+        }),
+        outcome_class: class,
+        log_hash: 0,
+        log: vec![],
+        stats: ProcStats::default(),
+        fault_fired: false,
+        out_len: 0,
+        hook_points: 0,
+        skipped: false,
+        spawns_seen: 0,
+        multi_threaded_parent: false,
+    }
+}
+
+/// Run the case in a forked child of the calling process. Only call this from a process that has
+/// no other running threads (the batch worker processes are single-threaded).
+pub fn run_case_forked(case: &Case, reference: Option<&RefProgram>, want_log: bool) -> Verdict {
+    use std::os::unix::io::FromRawFd;
+    let mut fds = [0 as libc::c_int; 2];
+    if unsafe { libc::pipe(fds.as_mut_ptr()) } != 0 {
+        return run_case(case, reference, want_log);
+    }
+    let pid = unsafe { libc::fork() };
+    if pid < 0 {
+        unsafe {
+            libc::close(fds[0]);
+            libc::close(fds[1]);
+        }
+        return run_case(case, reference, want_log);
+    }
+    if pid == 0 {
+        // child: run, report through the pipe, leave without running any destructor or atexit
+        unsafe {
+            libc::close(fds[0]);
+            libc::alarm(120);
+        }
+        let v = run_case(case, reference, want_log);
+        let bytes = serde_json::to_vec(&v).unwrap_or_default();
+        let mut off = 0;
+        while off < bytes.len() {
+            let r = unsafe {
+                libc::write(fds[1], bytes[off..].as_ptr() as *const libc::c_void, bytes.len() - off)
+            };
+            if r <= 0 {
+                break;
+            }
+            off += r as usize;
+        }
+        unsafe { libc::_exit(0) }
+    }
+    unsafe { libc::close(fds[1]) };
+    let mut bytes = Vec::new();
+    {
+        use std::io::Read as _;
+        let mut f = unsafe { std::fs::File::from_raw_fd(fds[0]) };
+        let _ = f.read_to_end(&mut bytes);
+    }
+    let mut status: libc::c_int = 0;
+    unsafe { libc::waitpid(pid, &mut status, 0) };
+    match serde_json::from_slice::<Verdict>(&bytes) {
+        Ok(v) => v,
+        Err(_) => {
+            let sig = status & 0x7f;
+            if sig == libc::SIGALRM {
+                crashed_verdict(case, "hang:wall_clock_120s the call did not return (outside the simulated process model)".into())
+            } else {
+                crashed_verdict(case, format!("crash:process_died wait status {status:#x} (signal {sig}): the call took the whole process down"))
+            }
+        }
+    }
+}
+
+/// Run the case in a fresh process of this binary (`c19-one`): slower than forking, usable from
+/// anywhere (minimisation, replay, self-checks).
+pub fn run_case_isolated(case: &Case, want_log: bool) -> Verdict {
+    use std::io::Write as _;
+    let exe = match std::env::current_exe() {
+        Ok(e) => e,
+        Err(e) => return crashed_verdict(case, format!("harness cannot find its executable: {e}")),
+    };
+    let child = std::process::Command::new(exe)
+        .arg("c19-one")
+        .arg(if want_log { "log" } else { "nolog" })
+        .stdin(std::process::Stdio::piped())
+        .stdout(std::process::Stdio::piped())
+        .stderr(std::process::Stdio::null())
+        .spawn();
+    let mut child = match child {
+        Ok(c) => c,
+        Err(e) => return crashed_verdict(case, format!("harness cannot start c19-one: {e}")),
+    };
+    if let Some(mut stdin) = child.stdin.take() {
+        let _ = stdin.write_all(serde_json::to_string(case).unwrap_or_default().as_bytes());
+    }
+    match child.wait_with_output() {
+        Ok(out) => match serde_json::from_slice::<Verdict>(&out.stdout) {
+            Ok(v) => v,
+            Err(_) => crashed_verdict(case, format!("crash:process_died {:?}: the call took the whole process down", out.status)),
+        },
+        Err(e) => crashed_verdict(case, format!("harness wait: {e}")),
+    }
+}
+
+/// `wgsl-sim c19-one log|nolog`: case on stdin, verdict on stdout.
+pub fn one_main(args: &[String]) -> i32 {
+    use std::io::Read as _;
+    let mut text = String::new();
+    if std::io::stdin().read_to_string(&mut text).is_err() {
+        return 2;
+    }
+    let case: Case = match serde_json::from_str(&text) {
+        Ok(c) => c,
+        Err(_) => return 2,
+    };
+    unsafe { libc::alarm(120) };
+    let cache = new_ref_cache();
+    let reference = reference_for(&cache, &case.job);
+    let v = run_case(&case, reference.as_ref(), args.first().map(|a| a == "log").unwrap_or(false));
+    println!("{}", serde_json::to_string(&v).unwrap_or_default());
+    0
+}
+
+/// `wgsl-sim c19-worker sys|rnd <seed> <n> <w> <W>`: the runs with index ≡ w (mod W), each in a
+/// forked child; one line `V <index> <verdict json>` per run on stdout.
+pub fn worker_main(args: &[String]) -> i32 {
+    use std::io::Write as _;
+    let num = |i: usize| args.get(i).and_then(|s| s.parse::<u64>().ok());
+    let (Some(mode), Some(seed), Some(n), Some(w), Some(stride)) =
+        (args.first(), num(1), num(2), num(3), num(4))
+    else {
+        return 2;
+    };
+    let sys = if mode == "sys" { systematic_cases() } else { vec![] };
+    let cache = new_ref_cache();
+    let stdout = std::io::stdout();
+    let mut i = w;
+    while i < n {
+        let case = if mode == "sys" {
+            sys[i as usize].clone()
+        } else {
+            case_for_run(seed, i)
+        };
+        let reference = reference_for(&cache, &case.job);
+        let ref_len = reference.as_ref().map(|r| r.text.len()).unwrap_or(0);
+        let v = run_case_forked(&case, reference.as_ref(), false);
+        let mut out = stdout.lock();
+        if writeln!(out, "V {i} {ref_len} {}", serde_json::to_string(&v).unwrap_or_default()).is_err() {
+            return 0; // the driver has seen enough
+        }
+        let _ = out.flush();
+        i += stride;
+    }
+    0
 }
 
 // ---------------------------------------------------------------------------------------------
@@ -928,9 +1098,8 @@ pub fn systematic_cases() -> Vec<Case> {
 // ---------------------------------------------------------------------------------------------
 // Minimisation: shrink while the same failure class persists.
 
-fn fails_same(case: &Case, class: &str, cache: &RefCache) -> bool {
-    let reference = reference_for(cache, &case.job);
-    let v = run_case(case, reference.as_ref(), false);
+fn fails_same(case: &Case, class: &str, _cache: &RefCache) -> bool {
+    let v = run_case_isolated(case, false);
     v.failure.map(|f| f.class == class).unwrap_or(false)
 }
 
@@ -1381,36 +1550,92 @@ pub fn case_for_run(seed: u64, index: u64) -> Case {
 /// Once this many runs of a batch have failed the verdict is settled; the rest is skipped.
 const FAILING_RUNS_ENOUGH: u64 = 150;
 
-fn run_batch(cases: &(dyn Fn(u64) -> Case + Sync), n: u64, cache: &RefCache) -> Tally {
-    let next = AtomicU64::new(0);
+fn run_batch(mode: &str, seed: u64, n: u64) -> Result<Tally, String> {
+    use std::io::BufRead as _;
+    let workers = crate::workers() as u64;
+    let exe = std::env::current_exe().map_err(|e| e.to_string())?;
+    let sys = if mode == "sys" { systematic_cases() } else { vec![] };
     let failing = AtomicU64::new(0);
     let total = Mutex::new(Tally::new());
+    let error = Mutex::new(None::<String>);
     std::thread::scope(|scope| {
-        for _ in 0..crate::workers() {
-            scope.spawn(|| {
-                let mut local = Tally::new();
-                loop {
-                    let i = next.fetch_add(1, Ordering::Relaxed);
-                    if i >= n || failing.load(Ordering::Relaxed) >= FAILING_RUNS_ENOUGH {
-                        break;
+        for w in 0..workers.min(n.max(1)) {
+            let (exe, sys, failing, total, error) = (&exe, &sys, &failing, &total, &error);
+            scope.spawn(move || {
+                let child = std::process::Command::new(exe)
+                    .args([
+                        "c19-worker".to_string(),
+                        mode.to_string(),
+                        seed.to_string(),
+                        n.to_string(),
+                        w.to_string(),
+                        workers.to_string(),
+                    ])
+                    .stdout(std::process::Stdio::piped())
+                    .stderr(std::process::Stdio::null())
+                    .spawn();
+                let mut child = match child {
+                    Ok(c) => c,
+                    Err(e) => {
+                        *error.lock().unwrap() = Some(format!("spawn c19-worker: {e}"));
+                        return;
                     }
-                    let case = cases(i);
-                    let reference = reference_for(cache, &case.job);
-                    let ref_len = reference.as_ref().map(|r| r.text.len()).unwrap_or(0);
-                    let v = run_case(&case, reference.as_ref(), false);
+                };
+                let reader = std::io::BufReader::new(child.stdout.take().unwrap());
+                let mut local = Tally::new();
+                let mut seen = 0u64;
+                for line in reader.lines() {
+                    let Ok(line) = line else { break };
+                    let mut parts = line.splitn(4, ' ');
+                    let (Some("V"), Some(i), Some(ref_len), Some(json)) =
+                        (parts.next(), parts.next(), parts.next(), parts.next())
+                    else {
+                        continue;
+                    };
+                    let (Ok(i), Ok(ref_len)) = (i.parse::<u64>(), ref_len.parse::<usize>()) else {
+                        continue;
+                    };
+                    let v: Verdict = match serde_json::from_str(json) {
+                        Ok(v) => v,
+                        Err(e) => {
+                            *error.lock().unwrap() = Some(format!("worker line for run {i}: {e}"));
+                            break;
+                        }
+                    };
+                    seen += 1;
+                    let case = if mode == "sys" {
+                        sys[i as usize].clone()
+                    } else {
+                        case_for_run(seed, i)
+                    };
                     if v.failure.as_ref().map(|f| !f.class.contains("semicolon")).unwrap_or(false) {
                         failing.fetch_add(1, Ordering::Relaxed);
                     }
                     local.record(i, &case, v, ref_len);
+                    if failing.load(Ordering::Relaxed) >= FAILING_RUNS_ENOUGH {
+                        break;
+                    }
+                }
+                let _ = child.kill();
+                let status = child.wait();
+                let expected = (n.saturating_sub(w) + workers - 1) / workers;
+                if seen < expected && failing.load(Ordering::Relaxed) < FAILING_RUNS_ENOUGH {
+                    let mut e = error.lock().unwrap();
+                    if e.is_none() {
+                        *e = Some(format!("c19-worker {w} delivered {seen} of {expected} runs ({status:?})"));
+                    }
                 }
                 total.lock().unwrap().merge(local);
             });
         }
     });
+    if let Some(e) = error.into_inner().unwrap() {
+        return Err(e);
+    }
     let mut t = total.into_inner().unwrap();
     t.samples.sort_by_key(|s| s["run"].as_u64().unwrap_or(0));
     t.samples.truncate(6);
-    t
+    Ok(t)
 }
 
 fn trigger_of(case: &Case) -> String {
@@ -1473,8 +1698,7 @@ fn report_failures(
         if !seen.insert((failure.class.clone(), trigger.clone())) {
             continue;
         }
-        let reference = reference_for(cache, &min.job);
-        let v = run_case(&min, reference.as_ref(), true);
+        let v = run_case_isolated(&min, true);
         let f = v
             .failure
             .clone()
@@ -1534,7 +1758,13 @@ pub fn main(tier: Tier) -> i32 {
 
     // 4.2 systematic block, then the seeded random block
     let sys_cases = systematic_cases();
-    let sys = run_batch(&|i| sys_cases[i as usize].clone(), sys_cases.len() as u64, &cache);
+    let sys = match run_batch("sys", seed, sys_cases.len() as u64) {
+        Ok(t) => t,
+        Err(e) => {
+            eprintln!("HARNESS-ERROR {e}");
+            return 2;
+        }
+    };
     let n_random: u64 = std::env::var("VERIF_C19_RUNS")
         .ok()
         .and_then(|s| s.parse().ok())
@@ -1542,16 +1772,21 @@ pub fn main(tier: Tier) -> i32 {
             Tier::Quick => 4000,
             Tier::Thorough => 1_500_000,
         });
-    let random = run_batch(&|i| case_for_run(seed, i), n_random, &cache);
+    let random = match run_batch("rnd", seed, n_random) {
+        Ok(t) => t,
+        Err(e) => {
+            eprintln!("HARNESS-ERROR {e}");
+            return 2;
+        }
+    };
 
     // determinism slice: re-run a sample of the random block, hashes must agree
     let det_n = if tier == Tier::Quick { 64 } else { 2048 };
     let mut det_mismatch = 0;
     for i in 0..det_n.min(n_random) {
         let case = case_for_run(seed, i * 7 % n_random.max(1));
-        let reference = reference_for(&cache, &case.job);
-        let a = run_case(&case, reference.as_ref(), false);
-        let b = run_case(&case, reference.as_ref(), false);
+        let a = run_case_isolated(&case, false);
+        let b = run_case_isolated(&case, false);
         if a.multi_threaded_parent || b.multi_threaded_parent {
             // the code under test uses helper threads around the formatter: their real-time
             // interleaving is not behind a seam, only outcomes are comparable
@@ -1856,9 +2091,7 @@ pub fn replay(path: &str, doc: &serde_json::Value) -> i32 {
     };
     let want_class = doc["failure_class"].as_str().unwrap_or("").to_string();
     let want_hash = doc["event_log_hash"].as_str().unwrap_or("").to_string();
-    let cache: RefCache = Mutex::new(HashMap::new());
-    let reference = reference_for(&cache, &case.job);
-    let v = run_case(&case, reference.as_ref(), true);
+    let v = run_case_isolated(&case, true);
     for line in &v.log {
         println!("  {line}");
     }
